@@ -106,8 +106,8 @@ def generate(ctx):
             if ctx.mine(idx):
                 yield {"k": "type", "t": t, "vc": vc, "s": subseed("c12", ctx.seed, "type", t, vc, rep)}
             idx += 1
-    for rep in range(ctx.scale(40, 1200)):
-        for kind in ("nested", "grouped"):
+    for kind in ("nested", "grouped"):  # kind-major, so that every shard receives cases of both kinds
+        for rep in range(ctx.scale(40, 1200)):
             if ctx.mine(idx):
                 yield {"k": kind, "s": subseed("c12", ctx.seed, kind, rep)}
             idx += 1
